@@ -26,8 +26,14 @@ def tests(wt):
 
 
 def demo(wt, mdir):
+    """run the demonstration the way its author did: from <worktree>/_mutant/<name>/demo.py, cwd = worktree"""
     env = dict(os.environ, PYTHONPATH=wt, PYTHONDONTWRITEBYTECODE="1")
-    rc, out = sh([PY, os.path.join(mdir, "demo.py")], cwd=wt, env=env, timeout=600)
+    inside = os.path.join(wt, "_mutant", os.path.basename(mdir))
+    os.makedirs(inside, exist_ok=True)
+    shutil.copy(os.path.join(mdir, "demo.py"), os.path.join(inside, "demo.py"))
+    with open(os.path.join(wt, "_mutant", "conftest.py"), "w") as f:
+        f.write('collect_ignore_glob = ["*"]\n')
+    rc, out = sh([PY, os.path.join("_mutant", os.path.basename(mdir), "demo.py")], cwd=wt, env=env, timeout=600)
     return rc, out.strip().split("\n")[-1][:300]
 
 
